@@ -61,12 +61,6 @@ theorem tbl_vals :
     pyTbl.s400 = S400 ∧ pyTbl.secsPerDay = D ∧ pyTbl.secsPerHour = 3600 ∧ pyTbl.secsPerMin = 60 ∧ pyTbl.epochYear = 1970 := by
   decide
 
-/-- the three chunk loops -/
-def yearPart (T : Tbl) (s0 y0 : Int) : Int × Int × Int :=
-  let r1 := chunkLoop 8 T.s100 100 0 s0 y0 1
-  let r2 := chunkLoop 40 T.s4 4 1 r1.1 r1.2.1 r1.2.2
-  chunkLoop 8 T.s1 1 0 r2.1 r2.2.1 r2.2.2
-
 /-- closed form of one stage: (remaining seconds, chunks consumed) -/
 def closed (s A B : Int) : Int × Int := if s ≥ A then ((s - A) % B, 1 + (s - A) / B) else (s, 0)
 
@@ -177,5 +171,155 @@ theorem stage3 (s2 y2 : Int) (lp : Bool) (h0 : 0 ≤ s2) (h1 : s2 < (if lp then 
       cases lp <;> simp only [if_true, if_false, Bool.false_eq_true] at * <;> unfold Y1 Y0 at * <;> omega
     simp [this, flag]
   · simp [c]
+
+
+/-- what the three loops compute, for seconds inside one 400-year cycle -/
+theorem yearPart_spec (s0 y0 : Int) (h0 : 0 ≤ s0) (h1 : s0 < S400) :
+    ∃ yc s3 : Int, ∃ lf : Bool, yearPart pyTbl s0 y0 = (s3, y0 + yc, flag lf) ∧
+      0 ≤ yc ∧ yc ≤ 399 ∧ (lf = true ↔ isLeapCycleP yc) ∧
+      0 ≤ s3 ∧ s3 < (if lf then Y1 else Y0) ∧ s0 = D * daysBeforeCycleYear yc + s3 := by
+  obtain ⟨a1, a2, a3, a4, a5⟩ := st1 s0 h0 h1
+  generalize hr1 : closed s0 C1 C0 = r1 at *
+  obtain ⟨s1, n1⟩ := r1
+  simp only [] at a1 a2 a3 a4 a5
+  have hl1 : s1 < (if decide (n1 = 0) then C1 else C0) := by
+    by_cases c : n1 = 0 <;> simp [c] at a4 ⊢ <;> exact a4
+  obtain ⟨b1, b2, b3, b4, b5⟩ := st2 s1 (decide (n1 = 0)) a1 hl1
+  generalize hr2 : closed s1 (if decide (n1 = 0) then Q1 else Q0) Q1 = r2 at *
+  obtain ⟨s2, n2⟩ := r2
+  simp only [] at b1 b2 b3 b4 b5
+  have hl2 : s2 < (if (if n2 = 0 then decide (n1 = 0) else true) then Q1 else Q0) := by
+    by_cases c : n2 = 0 <;> simp [c] at b4 ⊢ <;> exact b4
+  obtain ⟨c1, c2, c3, c4, c5⟩ := st3 s2 (if n2 = 0 then decide (n1 = 0) else true) b1 hl2
+  generalize hr3 : closed s2 (if (if n2 = 0 then decide (n1 = 0) else true) then Y1 else Y0) Y0 = r3 at *
+  obtain ⟨s3, n3⟩ := r3
+  simp only [] at c1 c2 c3 c4 c5
+  obtain ⟨k1, k2⟩ := compose n1 n2 n3 ⟨a2, a3⟩ ⟨b2, b3⟩ ⟨c2, c3⟩
+  refine ⟨100 * n1 + 4 * n2 + n3, s3, (if n3 = 0 then (if n2 = 0 then decide (n1 = 0) else true) else false), ?_, by omega, by omega, k2, c1, ?_, ?_⟩
+  · unfold yearPart
+    simp only []
+    rw [stage1 s0 y0 h0 h1, hr1]
+    simp only []
+    rw [stage2 s1 (y0 + 100 * n1) (decide (n1 = 0)) a1 hl1, hr2]
+    simp only []
+    rw [stage3 s2 (y0 + 100 * n1 + 4 * n2) (if n2 = 0 then decide (n1 = 0) else true) b1 hl2, hr3]
+    simp only [Prod.mk.injEq, true_and, and_true]
+    omega
+  · by_cases c : n3 = 0 <;> simp [c] at c4 ⊢ <;> exact c4
+  · omega
+
+
+/-! ### month walk -/
+
+def mwOK (leap : Bool) (n : Nat) : Bool :=
+  let r := monthWalk 12 (if flag leap == 1 then pyTbl.moff1 else pyTbl.moff0) 12 ((n : Int) + 1)
+  decide (1 ≤ r.1) && decide (r.1 ≤ 12) && decide (r.2 = (n : Int) + 1 - daysBeforeMonth leap r.1) &&
+    decide (1 ≤ r.2) && decide (r.2 ≤ dimL leap r.1)
+
+theorem mw_false : (List.range 365).all (mwOK false) = true := by decide +kernel
+theorem mw_true : (List.range 366).all (mwOK true) = true := by decide +kernel
+
+theorem monthWalk_spec (leap : Bool) (n : Int) (h0 : 0 ≤ n) (h1 : n < (if leap then 366 else 365)) :
+    let r := monthWalk 12 (if flag leap == 1 then pyTbl.moff1 else pyTbl.moff0) 12 (n + 1)
+    1 ≤ r.1 ∧ r.1 ≤ 12 ∧ r.2 = n + 1 - daysBeforeMonth leap r.1 ∧ 1 ≤ r.2 ∧ r.2 ≤ dimL leap r.1 := by
+  have e : ((n.toNat : Nat) : Int) = n := by omega
+  cases leap
+  · have h := all_range mw_false n.toNat (by simp at h1; omega)
+    simp only [mwOK, e, Bool.and_eq_true, decide_eq_true_eq] at h
+    simp only []; omega
+  · have h := all_range mw_true n.toNat (by simp at h1; omega)
+    simp only [mwOK, e, Bool.and_eq_true, decide_eq_true_eq] at h
+    simp only []; omega
+
+/-! ### link between the cycle and the proleptic ordinal -/
+
+theorem dby_cycle (k c : Int) : daysBeforeYear (400 * k + c) = 146097 * k + daysBeforeCycleYear c - 366 := by
+  unfold daysBeforeYear daysBeforeCycleYear; simp only []; omega
+
+theorem isLeap_cycle (k c : Int) : (isLeap (400 * k + c) = true) ↔ isLeapCycleP c := by
+  unfold isLeap isLeapCycleP
+  have h4 : (400 * k + c) % 4 = c % 4 := by omega
+  have h100 : (400 * k + c) % 100 = c % 100 := by omega
+  have h400 : (400 * k + c) % 400 = c % 400 := by omega
+  rw [h4, h100, h400]
+  simp only [Bool.and_eq_true, Bool.or_eq_true, beq_iff_eq, bne_iff_ne, ne_eq]
+
+/-- **`local_time` (pure-Python arithmetic) is the civil rendering of `unix_time + utc_offset`**, for every integer
+    timestamp of either sign and every offset: valid date whose proleptic ordinal is `epoch + ⌊(t+off)/86400⌋`, and
+    h:m:s is the time of day -/
+theorem localTime_py_spec (t off : Int) :
+    let r := localTime false pyTbl t off
+    validDate r.1 r.2.1 r.2.2.1 ∧ ymd2ord r.1 r.2.1 r.2.2.1 = epochOrd + (t + off) / 86400 ∧
+    r.2.2.2.1 * 3600 + r.2.2.2.2.1 * 60 + r.2.2.2.2.2 = (t + off) % 86400 ∧
+    0 ≤ r.2.2.2.1 ∧ r.2.2.2.1 < 24 ∧ 0 ≤ r.2.2.2.2.1 ∧ r.2.2.2.2.1 < 60 ∧ 0 ≤ r.2.2.2.2.2 ∧ r.2.2.2.2.2 < 60 := by
+  obtain ⟨_, _, _, _, _, _, t400, tD, tH, tM, tE⟩ := tbl_vals
+  simp only [localTime]
+  -- base shift: S seconds since Jan 1 of base year 400*kb
+  obtain ⟨S, kb, hb, hS⟩ : ∃ S kb : Int, shiftBase pyTbl t off = (S, 400 * kb) ∧
+      S = t + off - 86400 * (146097 * kb - 366 + 1 - epochOrd) := by
+    unfold shiftBase; rw [tD, tE]; unfold D epochOrd
+    by_cases c : t ≥ 0
+    · exact ⟨t - 946684800 + off, 5, by simp [c], by omega⟩
+    · exact ⟨t + 11676096000 + off, 4, by simp [c], by omega⟩
+  rw [hb]
+  simp only [reduce400, Bool.false_eq_true, if_false, t400]
+  have hs0 : 0 ≤ S % S400 ∧ S % S400 < S400 := by unfold S400; omega
+  have hnn : ¬ (S % S400 < 0) := by omega
+  simp only [hnn, if_false]
+  obtain ⟨yc, s3, lf, hyp, y0, y1, hlf, s30, s31, hsum⟩ := yearPart_spec (S % S400) (400 * kb + 400 * (S / S400)) hs0.1 hs0.2
+  rw [hyp]
+  simp only [tD, tH, tM]
+  have hday : 0 ≤ s3 / D ∧ s3 / D < (if lf then 366 else 365) := by
+    cases lf <;> simp only [if_true, if_false, Bool.false_eq_true] at * <;> unfold D Y1 Y0 at * <;> omega
+  have hmw := monthWalk_spec lf (s3 / D) hday.1 hday.2
+  simp only [] at hmw
+  generalize monthWalk 12 (if flag lf == 1 then pyTbl.moff1 else pyTbl.moff0) 12 (s3 / D + 1) = md at *
+  obtain ⟨m, d⟩ := md
+  simp only [] at hmw ⊢
+  obtain ⟨m1, m2, m3, m4, m5⟩ := hmw
+  have hY : 400 * kb + 400 * (S / S400) + yc = 400 * (kb + S / S400) + yc := by omega
+  have hleap : isLeap (400 * kb + 400 * (S / S400) + yc) = lf := by
+    rw [hY]
+    have := isLeap_cycle (kb + S / S400) yc
+    cases hl : isLeap (400 * (kb + S / S400) + yc) <;> cases lf <;> simp_all
+  refine ⟨?_, ?_, ?_, ?_⟩
+  · unfold validDate; rw [daysInMonth_eq, hleap]; exact ⟨m1, m2, m4, m5⟩
+  · unfold ymd2ord
+    rw [hleap, hY, dby_cycle]
+    have hSd : S = S400 * (S / S400) + S % S400 := by
+      have := Int.emod_add_mul_ediv S S400; omega
+    unfold S400 D at *
+    omega
+  · unfold S400 D at *; omega
+  · unfold D at *; omega
+
+
+/-! ### the compiled backend computes the same thing -/
+
+theorem rsTbl_eq : rsTbl = pyTbl := by
+  unfold rsTbl pyTbl
+  congr <;> funext i <;> rfl
+
+/-- Rust's truncating `/`, `%` followed by the sign fix-up is floor division for a positive divisor -/
+theorem reduce400_rs (T : Tbl) (hT : 0 < T.s400) (s y : Int) : reduce400 true T s y = reduce400 false T s y := by
+  unfold reduce400
+  simp only [if_true, Bool.false_eq_true, if_false]
+  generalize T.s400 = B at *
+  have hm : 0 ≤ s % B ∧ s % B < B := ⟨Int.emod_nonneg s (by omega), Int.emod_lt_of_pos s hT⟩
+  have hnn : ¬ (s % B < 0) := by omega
+  rw [if_neg hnn, Int.tdiv_eq_ediv, Int.tmod_eq_emod]
+  have hsign : B.sign = 1 := Int.sign_eq_one_of_pos hT
+  have habs : (B.natAbs : Int) = B := by omega
+  by_cases c : 0 ≤ s ∨ B ∣ s
+  · simp only [c, if_true, Int.add_zero, Int.natCast_zero, Int.sub_zero, hnn, if_false]
+  · simp only [c, if_false, hsign, habs]
+    have hlt : s % B - B < 0 := by omega
+    rw [if_pos hlt]
+    congr 1 <;> omega
+
+theorem localTime_rs_eq (t off : Int) : localTime true rsTbl t off = localTime false pyTbl t off := by
+  rw [rsTbl_eq]
+  unfold localTime
+  simp only [reduce400_rs pyTbl (by decide)]
 
 end Pendulum.LocalTime
